@@ -772,3 +772,4 @@ package tds
 //@   requires [packet] packet != nil && allocated(packet) && allocated(packet.Data)
 //@   requires [complete] packet.Header.Length == 8 + len(packet.Data)
 //@   requires [not-queued] forall j int :: 0 <= j && j < len(tdsChan.queueRx.queue) ==> tdsChan.queueRx.queue[j] != packet
+//@ typeinv Conn { [plumbing] this.tdsChannelsLock != nil && this.errCh != nil && !closed(this.errCh) }
